@@ -99,6 +99,9 @@ func genC20(g *Gen) error {
 		}
 		g.P("def src_%s : String := %s", name, leanStr(g.Src(fd.Body)))
 	}
+	if err := genC20Skip(g); err != nil { // skip indexes (c20skip.go)
+		return err
+	}
 	g.Footer()
 	return nil
 }
